@@ -382,7 +382,7 @@ func runC05(c *core.Ctx) {
 		}
 	}
 	c.Exhaustive(fmt.Sprintf("all request-kind sequences of length 1..%d over 8 kinds under 5 issuer configurations", maxLen))
-	n := c.Pick(300, 5000)
+	n := c.Pick(300, 12000)
 	for i := 0; i < n; i++ {
 		if !c.Next() {
 			continue
